@@ -69,6 +69,22 @@ def gen_cases(chk):
     for d in ['I 31', 'E 45', 'S 4f', 'AN']:
         cases.append('push I 3530 %s' % d)
         cases.append('pull %s I 3530' % d)
+    # several keys in one SCAN batch, each with its own replies: a key that vanishes between its PTTL and its DUMP (or the
+    # other way round) must not shift the expiry of its neighbours
+    r = chk.rng
+    pool_p = ['I ' + vlib.hexs(x) for x in [b'-1', b'0', b'1', b'60000', b'-2', b'999999999', b'7']]
+    pool_d = ['B 6161', 'BN', 'B -', 'B 626262']
+    fixed = [['I 30', 'BN', 'I 2d31', 'B 6262', 'I 3630303030', 'B 6363'],
+             ['I 2d32', 'B 61', 'I 37', 'B 62', 'I 2d31', 'B 63'],
+             ['I 31', 'BN', 'I 2d32', 'B 61', 'I 2d31', 'B 62', 'I 35', 'B 63']]
+    for f in fixed:
+        cases.append('batch %d %s' % (len(f) // 2, ' '.join(f)))
+    for _ in range(60 if chk.tier == 'quick' else 3000):
+        n = r.randint(2, 6)
+        toks = []
+        for _ in range(n):
+            toks += [r.choice(pool_p), r.choice(pool_d)]
+        cases.append('batch %d %s' % (n, ' '.join(toks)))
     return cases
 
 
@@ -97,6 +113,31 @@ def monitor(case, out):
         if n == -1:
             return None if t == 0 else 'persistent key restored with ttl %d' % t
         if not (0 < t <= max(1, n)): return 'key with PTTL %d restored with ttl %d (0 = persistent)' % (n, t)
+        return None
+    if kind == 'batch':
+        # every RESTORE names a key k<i>; its ttl must be the one derived from THAT key's own PTTL reply, and only keys with a payload are sent
+        n = int(toks[1]); pairs = []; i = 2
+        for _ in range(n):
+            p = toks[i:i + 2]; i += 2
+            d = toks[i:i + 2] if toks[i] == 'B' else toks[i:i + 1]; i += len(d)
+            pairs.append((p, d))
+        for cmd in out.split(' | '):
+            c = cmd.split()
+            if not c or c[0] != 'cmd': continue
+            key = bytes.fromhex(c[2]).decode()
+            idx = int(key[1:])
+            if idx >= n: return 'RESTORE for unknown key %s' % key
+            p, d = pairs[idx]
+            if d[0] != 'B': return 'RESTORE sent for key %s whose DUMP was nil' % key
+            if p[1] == b'-2'.hex(): return 'RESTORE sent for key %s reported missing (PTTL -2)' % key
+            if (c[4] if len(c) > 4 else '-') != (d[1] if len(d) > 1 else '-'): return 'RESTORE for key %s carries another key\'s payload' % key
+            pn = canonical_pttl(p[1])
+            if pn is None: continue
+            t = bytes.fromhex(c[3]) if c[3] != '-' else b''
+            if not re.fullmatch(rb'[0-9]+', t): return 'RESTORE ttl %r is not a number' % t
+            t = int(t)
+            if pn == -1 and t != 0: return 'persistent key %s restored with ttl %d' % (key, t)
+            if pn >= 0 and not (0 < t <= max(1, pn)): return 'key %s with PTTL %d restored with ttl %d (0 = persistent)' % (key, pn, t)
         return None
     # path cases: find the PTTL payload and check the RESTORE the implementation sent
     if kind in ('push', 'scan'): pr = toks[1:3]
